@@ -6,6 +6,7 @@ package c05
 import (
 	"fmt"
 	"math/rand"
+	"net/http"
 	"strings"
 	"testing"
 	"time"
@@ -195,7 +196,23 @@ func near(t time.Duration, deadlines ...time.Duration) bool {
 	return false
 }
 
-func answer(point string, fault int, email, newTok string, shortToken bool) sut.Answer {
+// withRetryAfter decorates an "unavailable" answer the way real rate limiters do: the property bounds
+// the grace by its own TTL whatever the authenticator suggests.
+func withRetryAfter(a sut.Answer, hint int) sut.Answer {
+	switch hint % 5 {
+	case 1:
+		a.Header = map[string]string{"Retry-After": "7200"}
+	case 2:
+		a.Header = map[string]string{"Retry-After": "86400"}
+	case 3:
+		a.Header = map[string]string{"Retry-After": time.Now().Add(3 * time.Hour).UTC().Format(http.TimeFormat)}
+	case 4:
+		a.Header = map[string]string{"Retry-After": "5", "X-RateLimit-Reset": "9999999999"}
+	}
+	return a
+}
+
+func answer(point string, fault int, email, newTok string, shortToken bool, hint int) sut.Answer {
 	okStatus := map[string]int{"validate": 200, "profile": 200, "refresh": 201}[point]
 	expires := int64(R / time.Second)
 	if shortToken {
@@ -210,9 +227,9 @@ func answer(point string, fault int, email, newTok string, shortToken bool) sut.
 	case fOK:
 		return okAns
 	case f429:
-		return sut.Status(429)
+		return withRetryAfter(sut.Status(429), hint)
 	case f503:
-		return sut.Status(503)
+		return withRetryAfter(sut.Status(503), hint)
 	case f401:
 		return sut.Status(401)
 	case f500:
@@ -280,6 +297,7 @@ func runHistory(rep *vh.Report, ps *sut.ProxyStack, stream string, idx int, r *r
 	ps.Auth.Calls("redeem", lr.Code)
 	lifetime := b.Virtual(s0.LifetimeDeadline)
 	episode := time.Duration(-1) // virtual time of the first 429/503 of the current outage
+	lastConsult := time.Duration(0) // virtual time of the last request during which the authenticator was asked (login = 0)
 	endedBySuccess := false
 	var desc []string
 
@@ -306,10 +324,11 @@ func runHistory(rep *vh.Report, ps *sut.ProxyStack, stream string, idx int, r *r
 		b.Advance(p.gap)
 		tv := b.VNow
 		newTok := fmt.Sprintf("at%d-%s", si+1, uid)
-		set("validate", token, answer("validate", p.faults[0], email, newTok, shortToken))
-		set("profile", token, answer("profile", p.faults[1], email, newTok, shortToken))
-		set("profile", newTok, answer("profile", p.faults[1], email, newTok, shortToken))
-		set("refresh", rtok, answer("refresh", p.faults[2], email, newTok, shortToken))
+		hint := r.Intn(10)
+		set("validate", token, answer("validate", p.faults[0], email, newTok, shortToken, hint))
+		set("profile", token, answer("profile", p.faults[1], email, newTok, shortToken, hint))
+		set("profile", newTok, answer("profile", p.faults[1], email, newTok, shortToken, hint))
+		set("refresh", rtok, answer("refresh", p.faults[2], email, newTok, shortToken, hint))
 
 		rs, _, cleared := b.Do(sut.Req{Target: p.target})
 		rep.Count("steps", 1)
@@ -410,6 +429,26 @@ func runHistory(rep *vh.Report, ps *sut.ProxyStack, stream string, idx int, r *r
 				episode = -1
 				endedBySuccess = true
 			}
+		}
+		// Whatever the outage state: a session is never served for longer than the validity TTL
+		// without the authenticator being consulted again (grace extends by one validity period per
+		// consultation, not by what the authenticator suggests in Retry-After or the like). The token
+		// TTL is at least the validity TTL in every history, so "valid TTL since the last consultation"
+		// is the latest moment a check is due.
+		if len(callNames) > 0 {
+			lastConsult = tv
+		} else if served && tv > lastConsult+V+guard {
+			during := "no-outage"
+			if episode >= 0 {
+				during = "outage"
+				if tv > episode+G {
+					during = "outage-past-grace-deadline"
+				}
+			}
+			rep.Violate(stream, idx, "served-without-consulting-authenticator-beyond-validity-ttl during="+during,
+				fmt.Sprintf("served at %v without any authenticator call; the authenticator was last consulted at %v (validity TTL %v; outage since %v)", tv, lastConsult, V, episode), h)
+		} else if served {
+			rep.Count("served_no_check_due", 1)
 		}
 		st.Verdict = verdict
 		h.Steps = append(h.Steps, st)
